@@ -117,7 +117,11 @@ type c58Inner struct {
 	open    int           // innerOpen
 	maxOpen int
 	atLimit int // times innerOpen reached n
+
+	closeFails bool // Close closes the fake and reports an error all the same (as close(2) may)
 }
+
+var errC58Close = errors.New("c58 inner listener: close reports an error")
 
 type c58Addr struct{}
 
@@ -189,6 +193,9 @@ func (in *c58Inner) Close() error {
 	}
 	in.closed = true
 	in.broadcastLocked()
+	if in.closeFails {
+		return errC58Close
+	}
 	return nil
 }
 
@@ -648,6 +655,9 @@ func c58RunBubble(t *testing.T, h *c58Hist, n int, scripts [][]c58Step, rng *ran
 				}
 			}()
 			h.setup(n, ctl)
+			if h.inner.closeFails = rng.IntN(3) == 0; h.inner.closeFails {
+				h.r.Event("histories_whose_inner_close_reports_an_error", 1)
+			}
 			barrier := rng.IntN(2) == 0
 			if !barrier {
 				close(h.startCh)
@@ -779,6 +789,9 @@ func c58RunPlain(h *c58Hist, n int, scripts [][]c58Step, rng *rand.Rand) {
 	nworkers := len(scripts)
 	ctl := nworkers
 	h.setup(n, ctl)
+	if h.inner.closeFails = rng.IntN(3) == 0; h.inner.closeFails {
+		h.r.Event("histories_whose_inner_close_reports_an_error", 1)
+	}
 	barrier := rng.IntN(2) == 0
 	if !barrier {
 		close(h.startCh)
@@ -1081,7 +1094,7 @@ func TestVerif_C58(t *testing.T) {
 	r := verifrt.Start(t, "C58")
 	defer r.Finish()
 	r.SetRule("one case = one concurrent history on a fresh LimitListener(fake, n), n in {1,2,7}: 2-32 worker goroutines + a controller run PRNG scripts of Accept / Conn.Close (1-4 times, sequentially or concurrently, also on already closed connections) / Listener.Close / feeding connections and transient Accept errors into the fake inner listener; inside a synctest bubble (quiescence checks) or as plain goroutines (GOMAXPROCS 1-16). non-trivial = calls overlapped in the stamps AND innerOpen reached the limit n during the history; distinct = hash of (mode, n, completion order of (goroutine, op, argument, result)) = interleaving signature")
-	r.Assume("the inner listener is a well-behaved harness fake: Accept hands out each fed connection once, returns net.ErrClosed (without blocking) once closed and never a connection after its Close; a transient Accept error does not close it")
+	r.Assume("the inner listener is a well-behaved harness fake: Accept hands out each fed connection once, returns net.ErrClosed (without blocking) once closed and never a connection after its Close (in a third of the histories that Close reports an error although it has closed the fake, as close(2) may); a transient Accept error does not close it")
 	r.Assume("innerOpen counts a connection from the moment the fake's Accept hands it out until the first call of its Close starts; the sequential model and the reading 'a freed slot is usable' (an Accept may not stay blocked while a slot is free and a connection waits) are written in the harness from the statement")
 	r.Assume("linearizability decided by porcupine v1.3.0; stamps from one atomic counter, taken by the calling goroutine right before the call and right after the return")
 
